@@ -363,11 +363,23 @@ def call_main(d, o, route):
             with open(os.path.join(d, "x09.conf"), "w") as fh:
                 fh.write("\n".join(conf) + "\n")
             argv = (["--config", "x09.conf"] + argv) if o["load"] else (["x09.conf"] + argv)
-        r = run_cli(cmd, argv, d)
+        import signal
+
+        def _late(signum, frame):
+            raise TimeoutError("the command went on computing")
+
+        signal.signal(signal.SIGALRM, _late)
+        signal.alarm(20)                  # a run that stops here takes milliseconds
+        try:
+            r = run_cli(cmd, argv, d)
+        finally:
+            signal.alarm(0)
     finally:
         if os.path.exists(os.path.join(d, "x09.conf")):
             os.unlink(os.path.join(d, "x09.conf"))
     msg = r["stdout"]
+    if r["exc"] and r["exc"].startswith("TimeoutError"):
+        return dict(st="ok", src="?main-went-on", fname="", mode="none", dim="none", pa="none", mag="none", yml=False)
     if r["exc"]:
         return dict(st="exc", exc=r["exc"].split(":")[0], msg=r["exc"][:300], ment=set())
     if r["code"] != 0:
@@ -414,7 +426,7 @@ def replay_group(task):
             w = parse_key(key)
             if w["mag"] == "none":
                 out.append((key, "collect", "", slim(call_collect(d, w))))
-            rnd = random.Random("%s/%s" % (seed, key))
+            rnd = random.Random("%s/%s" % (seed, "|".join(key.split("|")[6:])))    # same routes in the cleared world
             route = {k: rnd.choice(("opt", "conf", "both")) for k in ("dim", "pa", "mag", "name")}
             if w["load"]:
                 route["name"] = rnd.choice(("opt", "conf"))
